@@ -500,7 +500,8 @@ func (m *mon) variants(cs consensus.State, orig types.Block) []variant {
 			l := c.W.Locks[in.Parent.SiacoinOutput.Address]
 			val := in.Parent.SiacoinOutput.Value
 			if l != nil && !val.IsZero() {
-				if !referenced(&orig, v2OutIDs(t), -1, i) {
+				// the doubled value must leave the 128-bit overflow pre-check (which now counts input values) alone
+				if _, over := val.Mul64WithOverflow(8); !over && !referenced(&orig, v2OutIDs(t), -1, i) {
 					b := chaingen.CloneBlock(orig)
 					tt := &b.V2.Transactions[i]
 					tt.SiacoinInputs = append(tt.SiacoinInputs, chaingen.CloneV2(*t).SiacoinInputs[0])
